@@ -131,6 +131,15 @@ static Gen makeSchema(RSForm& f, vh::Rng& rng, bool spoil) {
     f.SetTermFor(g.terms[0], "term of " + alias(g.terms[0]));
     f.SetDefinitionFor(g.terms[0], "see @{" + X + "|nomn,sing} and @{" + alias(g.terms[0]) + "|nomn,sing}");
     f.SetConventionFor(g.bases[0], "conv " + X);
+    // conventions mention OTHER constituents too (a convention is translated like a definition, but no
+    // dependency graph records its mentions)
+    std::vector<uint32_t> all;
+    for (const auto uid : f.Core()) all.push_back(uid);
+    const int nc = rng.range(0, 3);
+    for (int i = 0; i < nc; ++i) {
+      const auto who = rng.pick(all);
+      f.SetConventionFor(who, "cf. " + alias(rng.pick(all)) + (rng.chance(1, 2) ? " and " + alias(rng.pick(all)) : std::string{}));
+    }
   }
   return g;
 }
@@ -227,6 +236,22 @@ static void judgeSynthesis(const RSForm& a, const RSForm& b, const ops::Equation
         // an operand constituent whose image is shared with another operand constituent may be the deleted side: then
         // the survivor's definition is the other one's; accept if EITHER side's renamed definition equals the image's
         const auto want = renameIds(op.GetRS(uid).definition, m);
+        // the convention is translated like the definition: every mention of an operand constituent becomes its image
+        {
+          const auto wantConv = renameIds(op.GetRS(uid).convention, m);
+          bool sharedImg = false;
+          for (const auto u1 : a.Core()) if (&op != &a || u1 != uid) if (tr.at(0)(u1) == img) sharedImg = true;
+          for (const auto u2 : b.Core()) if (&op != &b || u2 != uid) if (tr.at(1)(u2) == img) sharedImg = true;
+          bool unresolvedConv = false;
+          {
+            static const std::regex idc("[XCSADFTP][0-9]+");
+            const auto& conv = op.GetRS(uid).convention;
+            for (auto it = std::sregex_iterator(conv.begin(), conv.end(), idc); it != std::sregex_iterator(); ++it)
+              if (!m.count(it->str())) unresolvedConv = true;
+          }
+          if (!sharedImg && !unresolvedConv && wantConv != res->GetRS(img).convention)
+            bad = std::string(tag) + " " + op.GetRS(uid).alias + ": convention [" + res->GetRS(img).convention + "] expected [" + wantConv + "]";
+        }
         if (want == res->GetRS(img).definition) continue;
         // a mention that did not resolve in the operand may be captured by a re-issued alias in the
         // result (the property's proviso about unresolved names): not judged
